@@ -234,6 +234,24 @@ def build_sym_maze(ctx, spec):
     if kind == "TargetedLatticeMaze":
         return _cls(kind)(connection_list=cl, start_pos=SNP.array(list(s)) if is_sym(s[0]) else np.array(s),
                           end_pos=SNP.array(list(e)) if is_sym(e[0]) else np.array(e)), lat, (s, e)
+    if spec.get("path") == "any":
+        # an arbitrary simple path of the maze (not necessarily the solver's): chosen cell by cell, its edges assumed open
+        cells = lat.cells
+        path = [cells[ctx.choose(len(cells))]]
+        while len(path) < spec.get("maxlen", 4):
+            u = path[-1]
+            nb = [v for v, _ in lat.adj(u) if v not in path]
+            k = ctx.choose(len(nb) + 1)
+            if k == len(nb):
+                break
+            ctx.solver.add(lat.bit[lat.edge_between(u, nb[k])])
+            path.append(nb[k])
+        for i, (a, b) in enumerate(path):
+            ctx.inputs[f"path{i}_0"], ctx.inputs[f"path{i}_1"] = z3.IntVal(a), z3.IntVal(b)
+        ctx.inputs["pathlen"] = z3.IntVal(len(path))
+        if ctx.check() != z3.sat:
+            raise PathAbort("path edges contradict the fixed bits")
+        return _cls(kind)(connection_list=cl, solution=np.array(path)), lat, (path[0], path[-1])
     lm = _cls("LatticeMaze")(connection_list=cl)
     s_c, e_c = tuple(int(x) for x in s), tuple(int(x) for x in e)  # forks: endpoints become concrete cells
     try:
@@ -258,6 +276,11 @@ def build_concrete_maze(inputs, spec):
         s, e = tuple(spec["ends"][0]), tuple(spec["ends"][1])
     if kind == "TargetedLatticeMaze":
         return _cls(kind)(connection_list=cl, start_pos=np.array(s), end_pos=np.array(e))
+    if spec.get("path") == "any":
+        path = [(inputs.get(f"path{i}_0", 0), inputs.get(f"path{i}_1", 0)) for i in range(inputs.get("pathlen", 1))]
+        for a, b in zip(path, path[1:]):
+            cl[0 if a[0] != b[0] else 1, min(a[0], b[0]), min(a[1], b[1])] = True
+        return _cls(kind)(connection_list=cl, solution=np.array(path))
     lm = _cls("LatticeMaze")(connection_list=cl)
     try:
         sol = lm.find_shortest_path(s, e)
